@@ -2,7 +2,7 @@ SPECIFICATION Spec
 CONSTANTS
   Classes <- Classes4
   Outs <- OutsC02
-  Durs = {0, 1, 2, 5}
+  Durs = {0, 1, 2, 3, 5}
   Rets <- RetsC02
   Advs <- AdvsAll
   Decs <- DecsSleep
@@ -11,7 +11,7 @@ CONSTANTS
   Modes = {"call", "exec"}
   RunGaps <- GapsNone
   NRuns = 1
-  Configs <- ConfigsC02
+  Configs <- ConfigsC02T
   RecordHist = FALSE
 INVARIANT NoViolation
 INVARIANT AttemptsBounded
